@@ -53,6 +53,62 @@ Print Assumptions serial_eq_parallel_pinned_refuted.
 Example d15_repaired : d15_serial true = d15_parallel.
 Proof. vm_compute. reflexivity. Qed.
 
+(* 3. parallel_set_eq_spec / each_once (for the worklist model): whenever the workers finish, what they
+      reported is a permutation of the descent tree of the roots — each root's entry, then for every
+      yielded, descended directory the children that pass the skip function, recursively — so every
+      entry of that tree is reported exactly once and nothing else is.  [descent] is inductive (the
+      least such set).  For every file system, configuration, verdict and filter function.
+      Termination (a derivation exists and fuel suffices for every file system) is NOT proved here:
+      see notes/C06.md (loop_detected_and_terminates is partial). *)
+Theorem parallel_reports_descent_each_once :
+  forall (fs : fsys) (max_depth : option nat) (max_filesize : option N) (follow_links same_fs has_filter : bool)
+         (filter : dent -> bool) (should_skip : igstack -> dent -> bool) (fuel : nat)
+         (roots : list (bytes * nat)) (outs : list out),
+    par_walk fs max_depth max_filesize follow_links same_fs has_filter filter should_skip fuel roots = Some outs ->
+    exists each,
+      Forall2 (descent fs max_depth max_filesize follow_links has_filter filter should_skip)
+              (rev (flat_map snd (map (par_root fs same_fs) roots))) each /\
+      Permutation.Permutation outs (flat_map fst (map (par_root fs same_fs) roots) ++ concat each).
+Proof. exact (fun fs md mf fl sf hf filt sk => par_walk_descent fs md mf fl hf filt sk sf). Qed.
+Print Assumptions parallel_reports_descent_each_once.
+
+(* 4. loop_detected (the step-local part of loop_detected_and_terminates): with follow_links a
+      followed directory is never queued when its inode is among the ancestors on the matcher
+      stack, and in that situation the Loop error is what is reported. *)
+Theorem loop_never_extended_partial :
+  forall (fs : fsys) (max_filesize : option N) (follow_links has_filter : bool) (filter : dent -> bool)
+         (should_skip : igstack -> dent -> bool) (ig : igstack) (dir : bytes) (depth : nat) (ent : bytes * nat) (c : dent),
+    generate_work fs max_filesize follow_links has_filter filter should_skip ig dir depth ent = GWork c ->
+    de_follow c = true -> de_is_dir c = true ->
+    existsb (fun a => same_handle fs (de_ino c) (snd a)) ig = false.
+Proof. exact loop_never_extended_proof. Qed.
+Print Assumptions loop_never_extended_partial.
+
+Theorem loop_reported :
+  forall (fs : fsys) (max_filesize : option N) (follow_links has_filter : bool) (filter : dent -> bool)
+         (should_skip : igstack -> dent -> bool) (ig : igstack) (dir : bytes) (depth : nat) (ent : bytes * nat) (e1 : dent),
+    follow_links = true -> de_is_symlink (from_entry fs dir depth ent) = true ->
+    from_path fs (de_path (from_entry fs dir depth ent)) depth (snd ent) true = Some e1 ->
+    de_is_dir e1 = true -> existsb (fun a => same_handle fs (de_ino e1) (snd a)) ig = true ->
+    generate_work fs max_filesize follow_links has_filter filter should_skip ig dir depth ent = GOut (OLoop (de_path e1)).
+Proof. exact loop_reported_proof. Qed.
+Print Assumptions loop_reported.
+
+(* non-vacuity of 3 and 4: a tree with a cycle t/{a, l -> .}: both walkers finish, report t, t/a and
+   one Loop error for t/l *)
+Definition loop_fs : fsys :=
+  [ {| i_kind := FDir [([97]%N, 1); ([108]%N, 2)]; i_dev := 1 |};
+    {| i_kind := FFile 3; i_dev := 1 |};
+    {| i_kind := FLink (Some 0) 1; i_dev := 1 |} ].
+Definition show_out (o : out) : N * bytes :=
+  match o with OEntry e => (0%N, de_path e) | OLoop c => (1%N, c) | OIoErr p => (2%N, p) end.
+Example loop_example :
+  option_map (map show_out) (par_walk loop_fs None None true false false (fun _ => true) (fun _ _ => false) 50 [([116]%N, 0)])
+    = Some [(0, [116]); (1, [116; 47; 108]); (0, [116; 47; 97])]%N
+  /\ option_map (map show_out) (serial_walk loop_fs None None true false false (fun _ => true) (fun _ _ => false) 50 [([116]%N, 0)])
+    = Some [(0, [116]); (0, [116; 47; 97]); (1, [116; 47; 108])]%N.
+Proof. vm_compute. split; reflexivity. Qed.
+
 (* non-vacuity of 1: a file rejected by the filter under a size limit is skipped by both *)
 Example skip_example :
   skip_entry_with d5_fs (Some 10%N) true (fun _ => false) (fun _ _ => false) true [] d5_ent = true
